@@ -60,17 +60,21 @@ EmptyOf(a) == IF a.kind = "bytes" THEN V("bytes", 0, "plain", 1) ELSE V(a.kind, 
 \* other empty collection.  The zero-value-or-default latitude of scalars does not apply: [0] is not the zero value of a list.
 \* Outside a body (a list in a query string or a header, with a Default) the empty list cannot be written at all: it is not on the
 \* wire, the receiver sees "unset" and may fill the default in - all three readings (empty, nil, default) are allowed there.
+\* The zero value of a defaulted scalar (a non-pointer field: zero IS "the caller left it unset") in a BODY arrives as the
+\* default: the statement promises the default for what was left unset, and the body encoders of the generated code know which
+\* attributes carry one - wherever it is declared (attribute, alias type, both).  Outside bodies the generated encoders send the
+\* zero as it is for every kind; there the older latitude (zero or default) stays.
 ZeroScalar(a, v) == IsZero(v) /\ ~IsContainer(a)
 AllowedDelivered(a, v) ==
-  IF v = Absent THEN (IF a.mode = "default" THEN {DefaultOf(a)} ELSE IF IsContainer(a) /\ a.mode = "required" THEN {Absent, EmptyOf(a)} ELSE {Absent})
-  ELSE IF Emptyish(a, v) THEN {v, Absent} \cup (IF a.mode = "default" /\ a.loc # "body" THEN {DefaultOf(a)} ELSE {})
-  ELSE IF a.mode = "default" /\ ZeroScalar(a, v) THEN {v, DefaultOf(a)}
+  IF v = Absent THEN (IF HasDefault(a) THEN {DefaultOf(a)} ELSE IF IsContainer(a) /\ a.mode = "required" THEN {Absent, EmptyOf(a)} ELSE {Absent})
+  ELSE IF Emptyish(a, v) THEN {v, Absent} \cup (IF HasDefault(a) /\ a.loc # "body" THEN {DefaultOf(a)} ELSE {})
+  ELSE IF HasDefault(a) /\ ZeroScalar(a, v) THEN (IF a.loc = "body" THEN {DefaultOf(a)} ELSE {v, DefaultOf(a)})
   ELSE {v}
 \* where the attribute may be seen on the wire
 AllowedWhere(a, v) ==
-  IF v = Absent THEN (IF a.mode = "default" \/ IsContainer(a) THEN {a.loc, "none"} ELSE {"none"})
-  ELSE IF Emptyish(a, v) THEN (IF a.mode = "default" /\ a.loc = "body" THEN {a.loc} ELSE {a.loc, "none"})
-  ELSE IF a.mode = "default" /\ ZeroScalar(a, v) THEN {a.loc, "none"}
+  IF v = Absent THEN (IF HasDefault(a) \/ IsContainer(a) THEN {a.loc, "none"} ELSE {"none"})
+  ELSE IF Emptyish(a, v) THEN (IF HasDefault(a) /\ a.loc = "body" THEN {a.loc} ELSE {a.loc, "none"})
+  ELSE IF HasDefault(a) /\ ZeroScalar(a, v) THEN {a.loc, "none"}
   ELSE {a.loc}
 \* a payload surely satisfies the design when every allowed reading of every attribute is valid
 Satisfies(as, vs) == \A i \in DOMAIN as : \A d \in AllowedDelivered(as[i], vs[i]) : ValidAttr(as[i], d)
@@ -106,11 +110,11 @@ ClientWire(a, v) ==
 \* or the other depending on the location and the type; all three are within the oracle
 \* a required list / map / byte string left unset is sent empty by some encoders (bodies), not at all by others
 WireChoices(a, v) ==
-  IF v # Absent /\ a.mode = "default" /\ ZeroScalar(a, v)
-  THEN {ClientWire(a, v), ClientWire(a, DefaultOf(a)), [loc |-> "none", v |-> Absent]}
+  IF v # Absent /\ HasDefault(a) /\ ZeroScalar(a, v)
+  THEN (IF a.loc = "body" THEN {} ELSE {ClientWire(a, v)}) \cup {ClientWire(a, DefaultOf(a)), [loc |-> "none", v |-> Absent]}
   \* a defaulted list / map left unset: the encoder writes the default into the body (request: client body init, response:
   \* server body init), or leaves it out and the decoder fills it in; set to empty it travels as it is ([] / {})
-  ELSE IF v = Absent /\ a.mode = "default" /\ IsContainer(a)
+  ELSE IF v = Absent /\ HasDefault(a) /\ IsContainer(a)
   THEN {ClientWire(a, DefaultOf(a)), [loc |-> "none", v |-> Absent]}
   ELSE IF v = Absent /\ a.mode = "required" /\ IsContainer(a)
   THEN {ClientWire(a, v), [loc |-> a.loc, v |-> EmptyOf(a)]}
@@ -129,10 +133,10 @@ Carried(a, v) ==
 \* (side: who reads - the generated server takes the value of a REQUIRED plain string request cookie as it is, empty or not:
 \*  `c, err = r.Cookie(..); if err == http.ErrNoCookie {missing} else {v = c.Value}`; every other reader tests the text against "")
 ReadBackAt(a, w, side) ==
-  LET dflt == IF a.mode = "default" THEN DefaultOf(a) ELSE Absent
+  LET dflt == IF HasDefault(a) THEN DefaultOf(a) ELSE Absent
       c == IF w.loc = "none" THEN Absent ELSE Carried(a, w.v) IN
   IF w.loc = "none" THEN dflt
-  ELSE IF a.mode = "default" /\ a.loc # "body" /\ a.nest \in ContainerNests /\ c.cn = 0 THEN dflt      \* (an empty list parameter is no parameter)
+  ELSE IF HasDefault(a) /\ a.loc # "body" /\ a.nest \in ContainerNests /\ c.cn = 0 THEN dflt      \* (an empty list parameter is no parameter)
   ELSE IF a.nest = "whole_mapval" /\ a.loc = "query" /\ Dev("decode.mapparams_prefix_expected") THEN EmptyOf(a)
   ELSE IF a.loc = "body" THEN c
   ELSE IF a.kind = "string" /\ a.nest \in {"direct", "alias", "whole"} /\ c.s = "empty" /\ Dev("param.empty_string_is_absent")
